@@ -71,6 +71,27 @@ CHECKS = {
  "C32": ("storemon", "exploration", "clock-hook controlled identity allocation (stalled/backward/alternating/1 ns per call/real) under create-heavy Cypher histories; uniqueness and stability monitor over all internal->external pairs after every step",
          "Held on the generated histories: no statement failed on identity allocation, all external ids were distinct, and no node's identity changed across later statements, compaction and reopen.",
          "The controlled clock returns only values a real clock can return.", "DESIGN.md §4.2 C32"),
+ "C15": ("cyphermon", "exploration", "differential monitor: same generated statement history with and without create_index at a generated position; 9 equality-query shapes x 15 probe values compared after every step, per-node cause classification of disagreements",
+         "Held on the generated histories apart from the listed known findings: every query returned the same row multiset with and without the index and every statement reported the same change count; half of the histories avoid the triggers of the recorded findings so that index maintenance on updates, compaction and reopen is still explored.",
+         "Node identity through a uid property.", "DESIGN.md §4.4 C15"),
+ "C19": ("cyphermon", "exploration", "ternary-logic partitioning (metamorphic): rows(Q WHERE p) + rows(Q WHERE NOT p) + rows(Q WHERE p IS NULL) == rows(Q) on random graphs, bases and predicates; engine checked against itself",
+         "Held on the generated quadruples: no row lost or duplicated by a filter, over 10 base shapes x 16 predicate constructs, with and without indexes, on runs, compacted and reopened storage.",
+         "Deterministic predicates; OPTIONAL MATCH bases are filtered on completed rows; a quadruple with an erroring query is inconclusive.", "DESIGN.md §4.4 C19"),
+ "C20": ("cyphermon", "exploration", "independent-comparator monitor over ORDER BY output of generated mixed-type value lists; permutation check; SKIP/LIMIT key-slice check",
+         "Held on the generated lists apart from the listed known finding: output is a permutation of the input, sorted under Cypher's value ordering (exact int/float comparison), and SKIP s LIMIT l is the key slice of the full order.",
+         "Ties and pairs the comparator does not judge may permute.", "DESIGN.md §4.4 C20"),
+ "C21": ("cyphermon", "exploration", "direct-fold oracle (exact i128 sums, exact ordering) + in-engine reduce()/collect() rewrite over generated groups and grouping keys",
+         "Held on the generated groups: one row per distinct grouping key; count(*), count, sum, avg, min, max, collect and DISTINCT forms equal a direct fold; integer sums beyond 64 bits are a Float or an error, never a wrapped Int.",
+         "Grouping keys avoid numeric coercion ambiguity; groups with several NaN are not judged for DISTINCT.", "DESIGN.md §4.4 C21"),
+ "C22": ("cyphermon", "exploration", "implication monitor: plain UNWIND..RETURN f(x) fails => the same rows under 23 consuming wrappers must fail; self-calibrating candidate list of error-raising functions",
+         "Held on the generated combinations: no wrapper (DISTINCT, UNION arms, ORDER BY, aggregates, grouping, WITH forms, coalesce, CASE, list comprehension, quantifiers, reduce) returned rows when the plain query failed.",
+         "Error kinds are not compared.", "DESIGN.md §4.4 C22"),
+ "C23": ("cyphermon", "exploration", "law checking over boundary value pools: truth tables, De Morgan, null propagation, equality equivalence, exact numeric comparison, comparison-operator consistency, i128 overflow rule",
+         "Held on the boundary pools: three-valued logic tables from three operand sources, null propagation, = reflexive/symmetric/transitive, <,<=,>,>=,=,<> equal to exact int/float arithmetic and consistent with each other, + - * / % unary - abs() in range exact and out of range a finite Float.",
+         "Sampled + boundary-exhaustive domain, not all values.", "DESIGN.md §4.4 C23"),
+ "C33": ("cyphermon", "exploration", "differential monitor: limited vs unlimited run of generated queries under limits set around the true sizes; emitted-row counter hook for bounded extra work; huge-bound watchdog for the soft timeout",
+         "Held on the generated (query, options) pairs: a limited run returned exactly the unlimited result or a ResourceLimitExceeded error; after a row-limit trip at most limit+1 rows had been emitted; effectively infinite queries stopped within the bound after the soft timeout.",
+         "Only 'never stops' is decided by the clock.", "DESIGN.md §4.4 C33"),
 }
 
 checks = []
